@@ -3,6 +3,13 @@
 Oracle: hyper-dual (exact second-order forward-mode AD, mc/ref/hyperdual.py) differentiation of an independently
 coded TOTAL energy  U = sum_{i<j, r<=rc} [ s(r) - shift (s(rc) + (r-rc) s'(rc)) ]  (mc/ref/hessvec.py), mass weighted;
 second witness: central finite differences of a second, differently coded float energy (tolerance 1e-5 of the scale).
+
+Strengthened slices (docs/STRENGTHEN_TASK.md; reference and alphabets in mc/ref/c11x.py):
+  C11.scale          N = 8..86 (3D) / 32..129 (2D): matrices 24x24 .. 258x258 straddling 64 / 128 / 256, K = 2..3 species with
+                     masses 1 : 3 : 0.5, cells whose shortest edge is not x, triclinic cells, ragged coordination (2..16), partial masks;
+                     oracle = sum of hyper-dual pair-term Hessians + finite differences on columns around 63..65 / 127..129
+  C11.sequence       explicit-state search over words of HessianMatrix objects (constructed just in time / all alive) in forked children
+  C11.matrix.single  N = 1;  C11.matrix.intparams also with EVERY numeric input integer-typed
 """
 import itertools
 import os
@@ -12,6 +19,7 @@ import numpy as np
 
 from mc import alphabets as A
 from mc.harness import Result, Sub
+from mc.ref import c11x as CX
 from mc.ref import hessvec as HV
 from mc.ref.base import frac_tie_margin, minimg, mk_snap
 
@@ -26,6 +34,17 @@ ASSUMPTIONS = [
     "non-positive eigenvalues); eigenvalues are those of numpy.linalg.eigvalsh on the SAVED matrix",
     "float tolerance: rtol 1e-9 + 1e-11*scale against the hyper-dual oracle; 2e-5*scale against finite differences",
     "integer-typed parameter matrices are valid input ('npt.NDArray'); slice C11.matrix.intparams",
+    "C11.scale: ONE fixed configuration per size (jittered Cartesian lattice of spacing 1.25 with vacancies, the occupied "
+    "cluster straddling the periodic faces; cells 6.25x5x5 / 8.75x6.25 ... whose shortest edge is not x, triclinic variants with "
+    "tilts of one lattice spacing and the box origin at (-2.5, 1, 3); K = 2 or 3 species with masses 1 : 3 : 0.5, 3x3 parameter matrices); the oracle is the sum of "
+    "the hyper-dual Hessians of the pair terms u_ij(x_i, x_j) of the documented energy scattered by coordinate index (= the "
+    "hyper-dual Hessian of the total energy, evaluated sparsely), plus central finite differences of a numpy-coded energy on "
+    "<= 7 columns around the indices 63..65 / 127..129 (only particles whose pairs are >= 2e-3 away from their cutoff); every "
+    "cutoff / rint decision of the configuration has a margin >= 1e-6 (the jitter table is advanced until it has)",
+    "masses is a mapping species -> mass: the order in which its keys were inserted and entries for species that do not occur must not "
+    "matter (C11.matrix.massorder, C11.scale rotate through ascending / descending / rotated / extra-entry dicts)",
+    "C11.sequence: each diagonalize_hessian call must produce the matrix of ITS OWN object (configuration, species, masses, "
+    "parameters), whatever was constructed or computed before in the same process",
 ]
 
 # species-pair cutoffs are the same for all three potentials; sigma = RC / ratio
@@ -220,85 +239,53 @@ def gen_intparams(tier, seed):
                 for types in ((1, 2, 1), (1, 1, 1), (2, 2, 1)):
                     for im in (0, 1):
                         yield mk_case("intparams", d, "orth", H, found[g], types, [1] * d, POTS[ip], MASSES[im], True, graph=g, eps_int=True)
+                        c = mk_case("intall", d, "orth", H, found[g], types, [1] * d, POTS[ip], MASSES[im], True, graph=None, eps_int=True)
+                        c["int_all"] = True
+                        yield c
+
+
+def gen_massorder(tier, seed):
+    """the masses mapping written with its keys in descending order, or with an entry for an absent species"""
+    for d in (2, 3):
+        found, H = placements(seed, d, 3, tuple([1] * d), "orth")
+        for g in ((1, 1, 0), (1, 1, 1), (0, 1, 0)):
+            for ip in (0, 1, 2):
+                for types in ((1, 2, 1), (2, 2, 1), (2, 2, 2)):
+                    for order in ("rev", "extra"):
+                        c = mk_case("massorder", d, "orth", H, found[g], types, [1] * d, POTS[ip], MASSES[0], True, graph=g)
+                        c["mass_order"] = order
+                        yield c
+
+
+def gen_single(tier, seed):
+    """degenerate size: ONE particle (no pair at all): a d x d zero matrix, omega = 0, PR = 1"""
+    for d in (2, 3):
+        H = cell_for(d, "orth").tolist()
+        for t in (1, 2):
+            for ip in (0, 1, 2):
+                for mask in ([1] * d, [0] * d):
+                    yield mk_case("single", d, "orth", H, [[1.0, 1.2, 1.4][:d]], (t,), mask, POTS[ip], MASSES[0], True)
 
 
 # ------------------------------------------------------------------------------------------ oracle
-def run(case):
-    import pandas as pd
-    from PyMatterSim.static.hessians import HessianMatrix, InteractionParams, ModelName
+def ordered_masses(masses, order):
+    """the same mapping species -> mass written in another way: keys inserted in descending order / with an entry for a species that
+    does not occur (a dict is a mapping: neither may matter)"""
+    keys = sorted(masses)
+    if order == "rev":
+        return {k: masses[k] for k in reversed(keys)}
+    if order == "extra":
+        d = {keys[-1] + 1: 7.5}
+        d.update({k: masses[k] for k in keys})
+        return d
+    if order == "rot":
+        return {k: masses[k] for k in keys[1:] + keys[:1]}
+    return {k: masses[k] for k in keys}
 
-    R = Result()
-    d = case["d"]
-    H = np.array(case["H"], float)
-    pos = np.array(case["pos"], float)
-    n = len(pos)
-    types = [int(t) for t in case["types"]]
-    ppp = np.array(case["ppp"])
-    model, par = case["model"], case["par"]
-    masses = {int(k): float(v) for k, v in case["masses"].items()}
-    shift = bool(case["shift"])
-    rc = np.array(RC)
-    sig = rc / RATIO[model]
-    eps = np.array(EPS)
-    if case["eps_int"]:
-        eps_in = np.array([[1, 2], [2, 1]])  # integer dtype, as a user writing integral energies would pass it
-        eps = eps_in.astype(float)
-    else:
-        eps_in = eps.copy()
-    unequal = masses[1] != masses[2]
-    sg = {"d": d, "model": model, "unequal_masses": unequal, "eps_dtype": "int" if case["eps_int"] else "float"}
 
-    # screening of discrete decisions (never triggers for the searched placements; kept as a guard)
-    pl = HV.pair_list(pos, H, ppp, types, rc)
-    if case["graph"] is not None and [int(p["inside"]) for p in pl] != list(case["graph"]):
-        raise AssertionError("generator error: placement does not realise the announced contact graph")
-    if any(p["margin"] < 1e-3 for p in pl) or frac_tie_margin(np.array([pos[p["i"]] - pos[p["j"]] for p in pl]), H, ppp) < 1e-6:
-        return R.screen()
-
-    ip = {"lj": InteractionParams(ModelName.lennard_jones),
-          "ipl": InteractionParams(ModelName.inverse_power_law, ipl_n=par.get("n", 0), ipl_A=par.get("A", 0)),
-          "hertz": InteractionParams(ModelName.harmonic_hertz, harmonic_hertz_alpha=par.get("alpha", 0))}[model]
-    snap = mk_snap(pos, H, types)
-    sig_in, rc_in = sig.copy(), rc.copy()
-    out = "" if case["defname"] else "hx"
-    name = {"lj": "lennard_jones", "ipl": "inverse_power_law", "hertz": "harmonic_hertz"}[model] if case["defname"] else "hx"
-    for suf in (".hessianmatrix.npy", ".evecs.npy", ".omega_PR.csv"):
-        if os.path.exists(name + suf):
-            os.remove(name + suf)
-    h = HessianMatrix(snap, masses, eps_in, sig_in, rc_in, ppp, shift)
-    h.diagonalize_hessian(ip, saveevecs=True, savehessian=True, outputfile=out)
-    missing = [suf for suf in (".hessianmatrix.npy", ".evecs.npy", ".omega_PR.csv") if not os.path.exists(name + suf)]
-    if missing:
-        R.fail(f"output files {missing} not written as <outputfile>{missing[0]}", sig=dict(sg, clause="files"))
-        return R
-    M = np.load(name + ".hessianmatrix.npy")
-    V = np.load(name + ".evecs.npy")
-    tab = pd.read_csv(name + ".omega_PR.csv")
+def spectral_checks(R, sg, M, V, tab, n, d, ppp, types, masses, scale):
+    """symmetry, translation null space, omega vs eigenvalues of the SAVED matrix, eigenvectors, participation ratios"""
     nd = n * d
-    if M.shape != (nd, nd) or V.shape != (nd, nd) or list(tab.columns) != ["omega", "PR"] or len(tab) != nd:
-        R.fail(f"shapes: matrix {M.shape}, evecs {V.shape}, table {list(tab.columns)} x {len(tab)}; expected {nd}", sig=dict(sg, clause="shape"))
-        return R
-    if not (np.array_equal(snap.positions, pos) and np.array_equal(sig_in, sig) and np.array_equal(rc_in, rc) and np.array_equal(eps_in, eps)):
-        R.fail("an input array was modified", sig=dict(sg, clause="input_modified"))
-
-    ref, K, npairs = HV.ref_hessian(pos, H, ppp, types, masses, eps, sig, rc, shift, model, par)
-    scale = max(1.0, float(np.abs(ref).max()))
-    # --- C11.matrix: analytic (hyper-dual) oracle, every entry
-    tol = 1e-9 * np.abs(ref) + 1e-11 * scale
-    bad = np.abs(M - ref) > tol
-    if bad.any() or not np.isfinite(M).all():
-        p, q = np.unravel_index(int(np.argmax(np.abs(M - ref))), M.shape)
-        blk = "diagonal" if p // d == q // d else "offdiagonal"
-        R.fail(f"saved matrix entry [{p},{q}] = {M[p, q]!r}, hyper-dual second derivative of the documented energy / sqrt(m m) = {ref[p, q]!r}",
-               sig=dict(sg, clause="matrix", block=blk), exp=ref, obs=M, sub="C11.matrix")
-    # --- finite-difference witness
-    fd = HV.fd_hessian(pos, H, ppp, types, masses, eps, sig, rc, shift, model, par)
-    if np.abs(M - fd).max() > 2e-5 * scale:
-        p, q = np.unravel_index(int(np.argmax(np.abs(M - fd))), M.shape)
-        R.fail(f"saved matrix entry [{p},{q}] = {M[p, q]!r}, finite-difference second derivative = {fd[p, q]!r}",
-               sig=dict(sg, clause="matrix_fd"), exp=fd, obs=M, sub="C11.matrix")
-    if np.abs(ref - fd).max() > 2e-5 * scale:  # the two independently coded energies must agree with each other
-        raise AssertionError("reference models disagree (hyper-dual vs finite differences)")
     # --- C11.symmetric
     if np.abs(M - M.T).max() > 1e-12 * scale:
         R.fail(f"saved matrix not symmetric: max |M - M^T| = {np.abs(M - M.T).max():.3g}", sig=dict(sg, clause="symmetric"), sub="C11.symmetric")
@@ -336,11 +323,308 @@ def run(case):
     if not ((prv > 0).all() and (prv <= 1 + 1e-12).all()):
         R.fail("participation ratio outside (0, 1]", sig=dict(sg, clause="pr_range"), obs=prv, sub="C11.pr")
 
+    return om
+
+
+def run(case):
+    import pandas as pd
+    from PyMatterSim.static.hessians import HessianMatrix, InteractionParams, ModelName
+
+    R = Result()
+    d = case["d"]
+    H = np.array(case["H"], float)
+    pos = np.array(case["pos"], float)
+    n = len(pos)
+    types = [int(t) for t in case["types"]]
+    ppp = np.array(case["ppp"])
+    model, par = case["model"], case["par"]
+    masses = {int(k): float(v) for k, v in case["masses"].items()}
+    shift = bool(case["shift"])
+    rc = np.array(RC)
+    sig = rc / RATIO[model]
+    eps = np.array(EPS)
+    if case["eps_int"]:
+        eps_in = np.array([[1, 2], [2, 1]])  # integer dtype, as a user writing integral energies would pass it
+        eps = eps_in.astype(float)
+    else:
+        eps_in = eps.copy()
+    masses_in = ordered_masses(masses, case.get("mass_order", "asc"))
+    if case.get("int_all"):
+        # every numeric input integer-typed: masses {1: 1, 2: 3}, epsilon [[1,2],[2,1]], sigma [[1,1],[1,1]] (Hertz: = r_cut), r_cut [[2,2],[2,2]]
+        masses_in = {k: int(v) for k, v in masses.items()}
+        rc_i = np.array([[2, 2], [2, 2]])
+        sig_i = rc_i.copy() if model == "hertz" else np.array([[1, 1], [1, 1]])
+        rc, sig = rc_i.astype(float), sig_i.astype(float)
+    unequal = masses[1] != masses[2]
+    sg = {"d": d, "model": model, "unequal_masses": unequal, "eps_dtype": "int" if case["eps_int"] else "float"}
+    if case.get("int_all"):
+        sg["all_int"] = True
+    if n == 1:
+        sg["single_particle"] = True
+    if case.get("mass_order", "asc") != "asc":
+        sg["mass_dict"] = case["mass_order"]
+
+    # screening of discrete decisions (never triggers for the searched placements; kept as a guard)
+    pl = HV.pair_list(pos, H, ppp, types, rc)
+    if case["graph"] is not None and [int(p["inside"]) for p in pl] != list(case["graph"]):
+        raise AssertionError("generator error: placement does not realise the announced contact graph")
+    if pl and (any(p["margin"] < 1e-3 for p in pl) or frac_tie_margin(np.array([pos[p["i"]] - pos[p["j"]] for p in pl]), H, ppp) < 1e-6):
+        return R.screen()
+
+    ip = {"lj": InteractionParams(ModelName.lennard_jones),
+          "ipl": InteractionParams(ModelName.inverse_power_law, ipl_n=par.get("n", 0), ipl_A=par.get("A", 0)),
+          "hertz": InteractionParams(ModelName.harmonic_hertz, harmonic_hertz_alpha=par.get("alpha", 0))}[model]
+    snap = mk_snap(pos, H, types)
+    sig_in, rc_in = (sig_i.copy(), rc_i.copy()) if case.get("int_all") else (sig.copy(), rc.copy())
+    out = "" if case["defname"] else "hx"
+    name = {"lj": "lennard_jones", "ipl": "inverse_power_law", "hertz": "harmonic_hertz"}[model] if case["defname"] else "hx"
+    for suf in (".hessianmatrix.npy", ".evecs.npy", ".omega_PR.csv"):
+        if os.path.exists(name + suf):
+            os.remove(name + suf)
+    h = HessianMatrix(snap, masses_in, eps_in, sig_in, rc_in, ppp, shift)
+    h.diagonalize_hessian(ip, saveevecs=True, savehessian=True, outputfile=out)
+    missing = [suf for suf in (".hessianmatrix.npy", ".evecs.npy", ".omega_PR.csv") if not os.path.exists(name + suf)]
+    if missing:
+        R.fail(f"output files {missing} not written as <outputfile>{missing[0]}", sig=dict(sg, clause="files"))
+        return R
+    M = np.load(name + ".hessianmatrix.npy")
+    V = np.load(name + ".evecs.npy")
+    tab = pd.read_csv(name + ".omega_PR.csv")
+    nd = n * d
+    if M.shape != (nd, nd) or V.shape != (nd, nd) or list(tab.columns) != ["omega", "PR"] or len(tab) != nd:
+        R.fail(f"shapes: matrix {M.shape}, evecs {V.shape}, table {list(tab.columns)} x {len(tab)}; expected {nd}", sig=dict(sg, clause="shape"))
+        return R
+    if not (np.array_equal(snap.positions, pos) and np.array_equal(sig_in, sig) and np.array_equal(rc_in, rc) and np.array_equal(eps_in, eps)):
+        R.fail("an input array was modified", sig=dict(sg, clause="input_modified"))
+
+    ref, K, npairs = HV.ref_hessian(pos, H, ppp, types, masses, eps, sig, rc, shift, model, par)
+    scale = max(1.0, float(np.abs(ref).max()))
+    # --- C11.matrix: analytic (hyper-dual) oracle, every entry
+    tol = 1e-9 * np.abs(ref) + 1e-11 * scale
+    bad = np.abs(M - ref) > tol
+    if bad.any() or not np.isfinite(M).all():
+        p, q = np.unravel_index(int(np.argmax(np.abs(M - ref))), M.shape)
+        blk = "diagonal" if p // d == q // d else "offdiagonal"
+        R.fail(f"saved matrix entry [{p},{q}] = {M[p, q]!r}, hyper-dual second derivative of the documented energy / sqrt(m m) = {ref[p, q]!r}",
+               sig=dict(sg, clause="matrix", block=blk), exp=ref, obs=M, sub="C11.matrix")
+    # --- finite-difference witness
+    fd = HV.fd_hessian(pos, H, ppp, types, masses, eps, sig, rc, shift, model, par)
+    if np.abs(M - fd).max() > 2e-5 * scale:
+        p, q = np.unravel_index(int(np.argmax(np.abs(M - fd))), M.shape)
+        R.fail(f"saved matrix entry [{p},{q}] = {M[p, q]!r}, finite-difference second derivative = {fd[p, q]!r}",
+               sig=dict(sg, clause="matrix_fd"), exp=fd, obs=M, sub="C11.matrix")
+    if np.abs(ref - fd).max() > 2e-5 * scale:  # the two independently coded energies must agree with each other
+        raise AssertionError("reference models disagree (hyper-dual vs finite differences)")
+    om = spectral_checks(R, sg, M, V, tab, n, d, ppp, types, masses, scale)
+
     for suf in (".hessianmatrix.npy", ".evecs.npy", ".omega_PR.csv"):
         os.remove(name + suf)
     R.outcome({"M": M / scale, "om": om / np.sqrt(scale)}, nd=7)
-    R.nontrivial = npairs >= 1
+    R.nontrivial = npairs >= 1 or n == 1
     R.elem = nd * nd * 2 + 3 * nd
+    return R
+
+# ------------------------------------------------------------------------------------------ strengthened slices
+def _ip(model, par):
+    from PyMatterSim.static.hessians import InteractionParams, ModelName
+
+    return {"lj": InteractionParams(ModelName.lennard_jones),
+            "ipl": InteractionParams(ModelName.inverse_power_law, ipl_n=par.get("n", 0), ipl_A=par.get("A", 0)),
+            "hertz": InteractionParams(ModelName.harmonic_hertz, harmonic_hertz_alpha=par.get("alpha", 0))}[model]
+
+
+def _load(R, sg, name, nd):
+    import pandas as pd
+
+    sufs = (".hessianmatrix.npy", ".evecs.npy", ".omega_PR.csv")
+    missing = [suf for suf in sufs if not os.path.exists(name + suf)]
+    if missing:
+        R.fail(f"output files {missing} not written", sig=dict(sg, clause="files"))
+        return None
+    M = np.load(name + ".hessianmatrix.npy")
+    V = np.load(name + ".evecs.npy")
+    tab = pd.read_csv(name + ".omega_PR.csv")
+    for suf in sufs:
+        os.remove(name + suf)
+    if M.shape != (nd, nd) or V.shape != (nd, nd) or list(tab.columns) != ["omega", "PR"] or len(tab) != nd:
+        R.fail(f"shapes: matrix {M.shape}, evecs {V.shape}, table {list(tab.columns)} x {len(tab)}; expected {nd}", sig=dict(sg, clause="shape"))
+        return None
+    return M, V, tab
+
+
+SCALE_POTS = [("lj", {}), ("ipl", {"n": 10.0, "A": 2.5}), ("hertz", {"alpha": 2.5}), ("ipl", {"n": 12.5, "A": 1.0}), ("hertz", {"alpha": 2.0}), ("ipl", {"n": 6.0, "A": 1.0})]
+
+
+def gen_scale(tier, seed):
+    q = tier == "quick"
+    sizes = [(3, 8), (3, 43), (2, 32), (2, 33), (2, 65)] if q else \
+        [(3, 8), (3, 21), (3, 22), (3, 43), (3, 64), (3, 85), (3, 86), (2, 32), (2, 33), (2, 64), (2, 65), (2, 127), (2, 128), (2, 129)]
+    cnt = 0
+    for d, n in sizes:
+        partial = [1, 0] if d == 2 else [1, 0, 1]
+        full = [1] * d
+        for cell in ("orth", "tri"):
+            for pot in SCALE_POTS[:3] if q else SCALE_POTS:
+                if q or n > 70:
+                    # orthogonal array of strength 2 over (shift, K, mask)
+                    opts = [(True, 3, full), (False, 2, full), (True, 2, partial), (False, 3, partial)]
+                else:
+                    opts = [(sh, K, m) for sh in (True, False) for K in (2, 3) for m in (full, partial, [0] * d)]
+                for sh, K, m in opts:
+                    cnt += 1
+                    yield {"d": d, "n": n, "cell": cell, "model": pot[0], "par": pot[1], "shift": sh, "K": K, "ppp": m, "seed": seed,
+                           "mass_order": ("asc", "rev", "rot", "extra")[cnt % 4]}
+
+
+def run_scale(case):
+    from PyMatterSim.static.hessians import HessianMatrix
+
+    R = Result()
+    d, n, K, model, par, shift = case["d"], case["n"], case["K"], case["model"], case["par"], bool(case["shift"])
+    ppp = np.array(case["ppp"])
+    pos, H, types, pl = CX.configuration(case["seed"], d, n, case["cell"], ppp, K, model)
+    eps, sig, rc = CX.params(K, model)
+    lo = None
+    if case["cell"] == "tri":
+        # box origin away from 0 (the Hessian depends on coordinate differences only)
+        lo = np.array([-2.5, 1.0, 3.0][:d])
+        pos = pos + lo
+        pl = CX.pairs_vec(pos, H, ppp, types, rc)
+        if pl["margin"].min() < 1e-7 or pl["tie"] < 1e-7:
+            return R.screen()
+    masses = {int(k): float(v) for k, v in CX.MASS[K].items()}
+    nd = n * d
+    sg = {"slice": "scale", "d": d, "model": model, "K": K, "cell": case["cell"], "mass_dict": case["mass_order"], "nd": "<=64" if nd <= 64 else ("65..128" if nd <= 128 else ">128")}
+    snap = mk_snap(pos, H, types, lo=lo)
+    a_eps, a_sig, a_rc = eps.copy(), sig.copy(), rc.copy()
+    h = HessianMatrix(snap, ordered_masses(masses, case["mass_order"]), a_eps, a_sig, a_rc, ppp, shift)
+    h.diagonalize_hessian(_ip(model, par), saveevecs=True, savehessian=True, outputfile="hs")
+    got = _load(R, sg, "hs", nd)
+    if got is None:
+        return R
+    M, V, tab = got
+    if not (np.array_equal(snap.positions, pos) and np.array_equal(a_sig, sig) and np.array_equal(a_rc, rc) and np.array_equal(a_eps, eps)
+            and np.array_equal(snap.particle_type, types)):
+        R.fail("an input array was modified", sig=dict(sg, clause="input_modified"))
+    ref, npairs = CX.ref_hessian_sparse(pos, pl, types, masses, eps, sig, rc, shift, model, par)
+    scale = max(1.0, float(np.abs(ref).max()))
+    tol = 1e-9 * np.abs(ref) + 1e-11 * scale
+    bad = (np.abs(M - ref) > tol) | ~np.isfinite(M)
+    if bad.any():
+        rows, cols = np.nonzero(bad)
+        p, q = int(rows[0]), int(cols[0])
+        blk = "diagonal" if p // d == q // d else "offdiagonal"
+        R.fail(f"N={n} d={d}: {int(bad.sum())} entries of the saved {nd}x{nd} matrix differ from the hyper-dual second derivatives of the documented "
+               f"energy (rows {int(rows.min())}..{int(rows.max())}, columns {int(cols.min())}..{int(cols.max())}); first [{p},{q}] (particles {p // d},{q // d}; "
+               f"species {types[p // d]},{types[q // d]}) = {M[p, q]!r}, expected {ref[p, q]!r}",
+               sig=dict(sg, clause="matrix", block=blk), sub="C11.matrix")
+    wc = CX.witness_columns(pl, n, d)
+    fd = CX.fd_columns(pos, pl, types, masses, eps, sig, rc, shift, model, par, wc)
+    for p in wc:
+        if np.abs(ref[:, p] - fd[p]).max() > 2e-5 * scale:
+            raise AssertionError("reference models disagree (sparse hyper-dual vs finite differences)")
+        if np.abs(M[:, p] - fd[p]).max() > 2e-5 * scale:
+            q = int(np.argmax(np.abs(M[:, p] - fd[p])))
+            R.fail(f"N={n} d={d}: saved matrix entry [{q},{p}] = {M[q, p]!r}, finite-difference second derivative = {fd[p][q]!r}",
+                   sig=dict(sg, clause="matrix_fd"), sub="C11.matrix")
+            break
+    om = spectral_checks(R, sg, M, V, tab, n, d, ppp, types, masses, scale)
+    R.outcome({"M": M / scale, "om": om / np.sqrt(scale)}, nd=7)
+    R.nontrivial = npairs >= n
+    R.elem = nd * nd + nd * len(wc) + 3 * nd
+    return R
+
+
+# call sequences: letters = (d, graph placement, species, masses, potential, shift)
+SEQ_LETTERS = [
+    {"d": 2, "g": (1, 1, 0), "types": (1, 2, 1), "mass": 0, "pot": 0, "shift": True},
+    {"d": 2, "g": (1, 1, 0), "types": (2, 1, 1), "mass": 0, "pot": 0, "shift": True},   # same composition, other assignment
+    {"d": 2, "g": (1, 1, 0), "types": (1, 2, 1), "mass": 1, "pot": 0, "shift": True},   # equal masses
+    {"d": 2, "g": (1, 1, 0), "types": (1, 2, 1), "mass": 0, "pot": 0, "shift": False},
+    {"d": 2, "g": (1, 1, 1), "types": (1, 2, 1), "mass": 0, "pot": 1, "shift": True},   # other positions, IPL
+    {"d": 3, "g": (1, 1, 0), "types": (1, 2, 1), "mass": 0, "pot": 1, "shift": True},
+    {"d": 3, "g": (1, 1, 0), "types": (1, 1, 2), "mass": 0, "pot": 2, "shift": True},   # Hertz
+    {"d": 3, "g": (0, 1, 1), "types": (1, 2, 1), "mass": 0, "pot": 0, "shift": True, "order": "rev"},   # masses written {2: 3, 1: 1}
+]
+
+
+def gen_sequence(tier, seed):
+    depth = 2 if tier == "quick" else 3
+    for alive in (False, True):
+        for L in range(1, depth + 1):
+            for word in itertools.product(range(len(SEQ_LETTERS)), repeat=L):
+                if L == 1 and alive:
+                    continue
+                yield {"word": list(word), "alive": alive, "seed": seed}
+
+
+def _seq_setup(lt, seed):
+    d = lt["d"]
+    found, H = placements(seed, d, 3, tuple([1] * d), "orth")
+    model, par = POTS[lt["pot"]]
+    rc = np.array(RC)
+    return {"d": d, "H": np.array(H), "pos": np.array(found[lt["g"]]), "types": list(lt["types"]), "model": model, "par": par,
+            "masses": ordered_masses({int(k): float(v) for k, v in MASSES[lt["mass"]].items()}, lt.get("order", "asc")), "rc": rc, "sig": rc / RATIO[model], "eps": np.array(EPS), "shift": lt["shift"]}
+
+
+def _seq_child(case):
+    from PyMatterSim.static.hessians import HessianMatrix
+
+    sets = [_seq_setup(SEQ_LETTERS[k], case["seed"]) for k in case["word"]]
+
+    def make(c):
+        return HessianMatrix(mk_snap(c["pos"], c["H"], c["types"]), dict(c["masses"]), c["eps"].copy(), c["sig"].copy(), c["rc"].copy(), np.array([1] * c["d"]), c["shift"])
+
+    objs = [make(c) for c in sets] if case["alive"] else None
+    outs = []
+    for pos, c in enumerate(sets):
+        h = objs[pos] if objs else make(c)
+        h.diagonalize_hessian(_ip(c["model"], c["par"]), saveevecs=True, savehessian=True, outputfile="hq")
+        R = Result()
+        got = _load(R, {}, "hq", 3 * c["d"])
+        if got is None:
+            outs.append(None)
+            continue
+        outs.append({"M": got[0].tolist(), "om": [None if not np.isfinite(v) else float(v) for v in got[2]["omega"].values], "pr": got[2]["PR"].values.tolist()})
+    return outs
+
+
+def run_sequence(case):
+    R = Result()
+    payload = CX.forked(_seq_child, case)
+    feat = {"slice": "sequence", "alive": case["alive"]}
+    if "err" in payload:
+        R.fail(f"call sequence {case['word']} raised {payload['err']}", sig=dict(feat, clause="exception"))
+        return R
+    states = set()
+    for pos, (k, got) in enumerate(zip(case["word"], payload["ok"])):
+        c = _seq_setup(SEQ_LETTERS[k], case["seed"])
+        sg = dict(feat, position="first" if pos == 0 else "later", d=c["d"])
+        if pos:
+            pv = SEQ_LETTERS[case["word"][pos - 1]]
+            sg["changed"] = sorted(f for f in ("d", "g", "types", "mass", "pot", "shift") if pv[f] != SEQ_LETTERS[k][f])
+        if got is None:
+            R.fail(f"call #{pos + 1} of {case['word']}: output files missing or of the wrong shape", sig=dict(sg, clause="files"))
+            break
+        ref, _, npairs = HV.ref_hessian(c["pos"], c["H"], np.array([1] * c["d"]), c["types"], c["masses"], c["eps"], c["sig"], c["rc"], c["shift"], c["model"], c["par"])
+        M = np.array(got["M"])
+        scale = max(1.0, float(np.abs(ref).max()))
+        states.add((k, str(np.round(M / scale, 7).tolist())))
+        if (np.abs(M - ref) > 1e-9 * np.abs(ref) + 1e-11 * scale).any():
+            p, q = np.unravel_index(int(np.argmax(np.abs(M - ref))), M.shape)
+            R.fail(f"call #{pos + 1} of the sequence {[SEQ_LETTERS[i] for i in case['word']]} ({'all objects constructed first' if case['alive'] else 'object constructed before its call'}): "
+                   f"saved matrix entry [{p},{q}] = {M[p, q]!r}, second derivative of this object's energy = {ref[p, q]!r}", sig=dict(sg, clause="matrix"), exp=ref, obs=M)
+            break
+        lam = np.linalg.eigvalsh(0.5 * (M + M.T))
+        om = np.array([np.nan if v is None else v for v in got["om"]], float)
+        big = lam > 1e-7 * scale
+        if not np.allclose(np.sort(om[np.isfinite(om) & (om > 0)] ** 2)[-int(big.sum()):] if big.any() else [], lam[big], rtol=1e-8, atol=1e-9 * scale):
+            R.fail(f"call #{pos + 1} of {case['word']}: omega^2 are not the positive eigenvalues of the saved matrix", sig=dict(sg, clause="omega"), exp=np.sqrt(lam[big]), obs=om)
+            break
+    R.elem = sum((3 * SEQ_LETTERS[k]["d"]) ** 2 for k in case["word"])
+    R.states = len(states)
+    R.transitions = len(case["word"])
+    R.outcome(payload["ok"], nd=7)
     return R
 
 
@@ -361,5 +645,24 @@ def subs(tier, seed):
             rule="pair distances 1.95 and 2.05 lying between the species cutoffs 1.9/2.0/2.1, all type maps, N=2,3: interaction "
                  "membership and s'(rc) must use r_cut[type_i,type_j]"),
         Sub("C11.matrix.files", gen_files, run, rule="default output name = model name (outputfile='')"),
-        Sub("C11.matrix.intparams", gen_intparams, run, rule="integer-typed epsilon matrix [[1,2],[2,1]] with equal and unequal masses"),
+        Sub("C11.matrix.intparams", gen_intparams, run, rule="integer-typed epsilon matrix [[1,2],[2,1]] with equal and unequal masses; and EVERY numeric "
+            "input integer-typed (masses {1:1, 2:3|1}, epsilon, sigma [[1,1],[1,1]], r_cut [[2,2],[2,2]])"),
+        Sub("C11.matrix.massorder", gen_massorder, run, rule="the masses dict {1: 1, 2: 3} written as {2: 3, 1: 1} and as {3: 7.5, 1: 1, 2: 3} (a mapping: key order "
+            "and entries of absent species must not matter); N=3, three graphs x type maps x three potentials, 2D/3D"),
+        Sub("C11.matrix.single", gen_single, run, rule="degenerate size N = 1 (no pair): d x d zero matrix, omega = 0, PR = 1; 2D/3D x species x potential x mask"),
+        Sub("C11.scale", gen_scale, run_scale,
+            rule="SIZES: one fixed configuration per size, N in " + ("{8, 43} (3D: 24x24, 129x129) and {32, 33, 65} (2D: 64, 66, 130)" if q else
+                 "{8, 21, 22, 43, 64, 85, 86} (3D: 24 .. 258) and {32, 33, 64, 65, 127, 128, 129} (2D: 64 .. 258)")
+                 + " x orthogonal (shortest edge not x) / triclinic cell x potentials (" + ("LJ, IPL(10, 2.5), Hertz 2.5" if q else "6") + ") x "
+                 + ("an orthogonal array of strength 2 over (shift, K in {2,3} species, full / partial mask)" if q else "shift x K in {2,3} x {full, partial, open} masks (orthogonal array for N d > 200)")
+                 + "; jittered lattice with vacancies (coordination numbers 2..16), masses 1 : 3 : 0.5; EVERY entry of the saved matrix vs the sum "
+                   "of hyper-dual pair-term Hessians, finite-difference witness on <= 7 columns around 63..65 / 127..129, symmetry, "
+                   "translations, omega, eigenvectors, PR; non-trivial = at least N interacting pairs",
+            bounds={"sizes_3d": [8, 43] if q else [8, 21, 22, 43, 64, 85, 86], "sizes_2d": [32, 33, 65] if q else [32, 33, 64, 65, 127, 128, 129], "K": [2, 3]}),
+        Sub("C11.sequence", gen_sequence, run_sequence,
+            rule="explicit-state search over CALL SEQUENCES: all words of length <= " + ("2" if q else "3") + " over 8 HessianMatrix objects (N=3; 2D / 3D, same positions "
+                 "with permuted species, equal / unequal masses, shift on / off, other positions, three potentials), each word twice: object constructed right "
+                 "before its diagonalize_hessian call / ALL objects constructed first and kept alive; every word in a forked child; every call must save the "
+                 "matrix of its own object (hyper-dual reference) with omega^2 = its positive eigenvalues",
+            bounds={"depth": 2 if q else 3, "letters": len(SEQ_LETTERS)}),
     ]
